@@ -12,7 +12,7 @@ Call policy (DESIGN.md, E2 "summaries, not path products"):
 from __future__ import annotations
 
 from .interp_base import *  # noqa: F401,F403
-from .interp_base import Limit, Raised, Run, Path
+from .interp_base import Limit, Raised, Run, Path, NeedInline
 from .interp_core import is_concrete
 
 
@@ -35,6 +35,8 @@ class Analyzer:
         self.direction = "?"
         self.root = "?"
         self.path_base = 0
+        self.inline: set = set()  # call sites (node ids) of higher-order calls that must be inlined in the current exploration
+        self.codec_sites: dict = {}
         interp.call_hook = self.hook
         interp.enter_hook = self.functions.add
 
@@ -60,12 +62,15 @@ class Analyzer:
             return NotImplemented
         if isinstance(fn, BoundV):
             return NotImplemented
+        if higher_order and id(node) in self.inline:
+            higher_order = False
         if higher_order:
             self.stats["codec_calls"] += 1
             idx = len(run.effects)
             streams = [a for a in list(args) + list(kwargs.values()) if isinstance(a, StreamV)]
             others = [a for a in args if not isinstance(a, StreamV)] + [v for v in kwargs.values() if not isinstance(v, StreamV)]
             term = ("codec", run.fresh_wire(), f.uid)
+            self.codec_sites[term] = id(node)
             run.emit("codec", streams[0], f, tuple(others), term, I.site(node))
             return Sym(term, "any", opaque_none=True, maybe_none=True, codec=f)
         atom = self.atom_for(f, args, kwargs, node, run)
@@ -360,11 +365,24 @@ class Analyzer:
         prev = (self.direction, self.root)
         self.direction = direction or ("r" if len(args) == 1 else "w")
         self.root = getattr(fn, "ref", repr(fn))
+        saved_inline = set(self.inline)
         try:
-            ps = I.explore(lambda run: I.call(fn, list(args), dict(kwargs or {}), run, None))
+            for attempt in range(8):
+                try:
+                    ps = I.explore(lambda run: I.call(fn, list(args), dict(kwargs or {}), run, None))
+                    break
+                except NeedInline as ni:
+                    # the caller inspects the result of a function value it was handed: summarise that callee in place
+                    site = self.codec_sites.get(ni.uid)
+                    if site is None or site in self.inline:
+                        raise Limit(f"decision depends on an opaque codec result {ni.uid!r} that cannot be inlined")
+                    self.inline.add(site)
+            else:
+                raise Limit("too many nested higher-order callees to inline")
             self.stats["paths"] += len(ps)
             self.stats["summaries"] += 1
             self.record(ps)
         finally:
             self.direction, self.root = prev
+            self.inline = saved_inline
         return ps
